@@ -10,6 +10,8 @@ use crate::{
 };
 use tracing::{trace, warn};
 
+#[cfg(feature = "verif-hooks")]
+use crate::verif_hooks::{instant, rand};
 use instant::{Duration, Instant};
 use std::collections::vec_deque::Drain;
 use std::collections::{HashMap, HashSet, VecDeque};
@@ -40,6 +42,11 @@ const QUALITY_REPORT_INTERVAL: Duration = Duration::from_millis(200);
 pub const MAX_CHECKSUM_HISTORY_SIZE: usize = 32;
 
 fn millis_since_epoch() -> u128 {
+    #[cfg(feature = "verif-hooks")]
+    {
+        return crate::verif_hooks::millis_since_epoch();
+    }
+    #[allow(unreachable_code)]
     #[cfg(not(target_arch = "wasm32"))]
     {
         std::time::SystemTime::now()
@@ -968,5 +975,20 @@ mod protocol_tests {
 
         assert_eq!(protocol.last_recv_frame(), NULL_FRAME);
         assert!(protocol.event_queue.is_empty());
+    }
+}
+
+#[cfg(feature = "verif-hooks")]
+impl<T: Config> UdpProtocol<T> {
+    pub(crate) fn verif_buffers(&self, spectator: bool) -> crate::verif_hooks::EndpointBuffers {
+        crate::verif_hooks::EndpointBuffers {
+            spectator,
+            pending_output: self.pending_output.len(),
+            recv_inputs: self.recv_inputs.len(),
+            pending_checksums: self.pending_checksums.len(),
+            send_queue: self.send_queue.len(),
+            event_queue: self.event_queue.len(),
+            sync_random_requests: self.sync_random_requests.len(),
+        }
     }
 }
